@@ -8,6 +8,10 @@ for d in sorted(glob.glob(os.path.join(os.path.dirname(os.path.abspath(__file__)
     if len(s) > 150:
         s = s[:147] + "..."
     note = "first missed; " + m["strengthening"] if m.get("strengthening") else ""
+    if m.get("note"):
+        note = (note + "; " if note else "") + m["note"]
+    if m.get("neutralised_by_fix"):
+        note = (note + "; " if note else "") + "no longer breaks the property: neutralised by fix " + (m["neutralised_by_fix"] if isinstance(m["neutralised_by_fix"], str) else json.dumps(m["neutralised_by_fix"]))
     rows.append("| %s | %s | %s | %s |" % (os.path.basename(d), s, ", ".join(m.get("caught_by") or ["—"]), note.replace("|", "/")))
 print("| seeded change | what it does | alarms | note |\n|---|---|---|---|")
 print("\n".join(rows))
